@@ -52,8 +52,10 @@ Definition naive_frechet_op (op : N -> N -> N) (xl xr yl yr : list N) : list N *
 
 (* ---------- pba/utils.py ---------- *)
 (* np.linspace(0, len-1, number, dtype=int) *)
+(* the index arithmetic is done on binary integers (i * (len - 1) reaches millions for the n*n combinations of independence);
+   Proofs/DepOps.v: cond_index_nat shows it is (i * (len - 1)) / (number - 1) on nat *)
 Definition cond_index (len number i : nat) : nat :=
-  if Nat.eqb number 1 then 0 else (i * (len - 1)) / (number - 1).
+  if Nat.eqb number 1 then 0 else Z.to_nat ((Z.of_nat i * Z.of_nat (len - 1)) / Z.of_nat (number - 1)).
 Definition condensation (bound : list N) (number : nat) : list N :=
   map (fun i => nth0 bound (cond_index (length bound) number i)) (seq 0 number).
 (* np.all(np.diff(arr) >= 0) *)
